@@ -20,6 +20,7 @@ func verifYield(point string) {
 // VerifSnapshot is a read-only projection of the Box state for the conformance harness.
 type VerifSnapshot struct {
 	Pending  map[string][]string // topic -> data of the held messages, in order
+	HandOver map[string][]string // topic -> data of the messages queued in a running hand-over, in order
 	Counts   map[string]map[uint16]int
 	Started  map[string]uint64
 	InFlight map[uint16][]string
@@ -31,7 +32,7 @@ func (b *Box) VerifSnapshot() VerifSnapshot {
 	b.initialize()
 	b.lock.RLock()
 	defer b.lock.RUnlock()
-	s := VerifSnapshot{Pending: map[string][]string{}, Counts: map[string]map[uint16]int{}, Started: map[string]uint64{}, InFlight: map[uint16][]string{}}
+	s := VerifSnapshot{Pending: map[string][]string{}, HandOver: map[string][]string{}, Counts: map[string]map[uint16]int{}, Started: map[string]uint64{}, InFlight: map[uint16][]string{}}
 	for t, sm := range b.pendingMessages {
 		sm.lock.RLock()
 		l := make([]string, 0, len(sm.messages))
@@ -45,6 +46,13 @@ func (b *Box) VerifSnapshot() VerifSnapshot {
 		sm.lock.RUnlock()
 		s.Pending[t] = l
 		s.Counts[t] = c
+	}
+	for t, q := range b.handOver {
+		l := make([]string, 0, len(q))
+		for _, m := range q {
+			l = append(l, string(m.Data))
+		}
+		s.HandOver[t] = l
 	}
 	for t, e := range b.startedSending {
 		s.Started[t] = e
